@@ -109,13 +109,17 @@ def check(ctx, case):
                     return f[len("STATIC_"):]
                 return None
 
-            if all(general(f) in declared.features for f in extra):
+            # two root causes can meet in one input: refined features (known finding of their own) are set aside
+            # before the remaining ones are attributed
+            rest = [f for f in extra if general(f) not in declared.features]
+            if not rest:
                 raise Violation(
                     "kind-not-contained:refinement-feature",
                     f"{name}: the compiled problem has the refined features {extra} (simplification made expressions linear / fluents static) while the declared resulting kind only has their general counterparts",
                     case,
                 )
             COND = {"NEGATIVE_CONDITIONS", "DISJUNCTIVE_CONDITIONS", "EQUALITIES", "EXISTENTIAL_CONDITIONS", "UNIVERSAL_CONDITIONS"}
+            extra = rest
             if name == "usertype_fluents" and set(extra) <= COND and _nonconst_bool_value(case["problem"]):
                 raise Violation(
                     f"kind-not-contained:{name}:bool-value-becomes-condition",
